@@ -4,6 +4,6 @@ import "verif/drv"
 
 func props() []drv.Property {
 	return []drv.Property{
-		propC05(), propC06(), propC07(), propC08(), propC09(), propC10(), propC12(),
+		propC05(), propC06(), propC07(), propC08(), propC09(), propC10(), propC11(), propC12(), propC13(),
 	}
 }
